@@ -253,9 +253,9 @@ def scenario_ops(cases):
             if suite == "direct":
                 d.update({"u": c["u"], "p": c["p"], "prov": c.get("prov", "none"), "prov_local": c.get("prov_local", ""), "prov_domain": c.get("prov_domain", "")})
             elif suite == "login":
-                d.update({"kind": "login", "tls": c["tls"], "tag": c["tag"], "line": c["line"], "timeout_ms": 2500})
+                d.update({"kind": "login", "tls": c["tls"], "tag": c["tag"], "line": c["line"], "timeout_ms": 6000})
             else:
-                d.update({"kind": "authplain", "tls": c["tls"], "tag": c["tag"], "blob": c["blob"], "timeout_ms": 2500})
+                d.update({"kind": "authplain", "tls": c["tls"], "tag": c["tag"], "blob": c["blob"], "timeout_ms": 6000})
             dc.append(d)
         ops.append({"op": opname, "cases": dc})
         owners.append(idx)
@@ -273,7 +273,7 @@ def scenario_ops(cases):
         for i in idx:
             c = cases[i]
             beh = c["beh"]
-            to = 4000
+            to = 8000
             if beh.startswith("slow"):
                 to = 14000
             if beh.startswith("slowfail:"):
@@ -363,6 +363,7 @@ def emit(cases):
     """Coq sources evaluating all cases: list of (suite, keys, file body)"""
     src = C.COQ_CASE_HEADER + "From Raven Require Import Base.GoStrB64 Spec.Json Model.Auth Spec.AuthSpec Spec.AuthObs.\n"
     groups = {"direct": [], "ident": [], "login": [], "plain": [], "sasl": []}
+    skipped = SKIPPED
     for i, c in enumerate(cases):
         if "obs" not in c:
             continue
@@ -374,6 +375,9 @@ def emit(cases):
         oc, _ = outcome(c["beh"])
         if s == "sasl":
             o = c["obs"]
+            if o.get("how") != "eof" or "error" in o:
+                skipped.append("SASL case not evaluated (connection did not reach EOF in time): %r" % c["line"][:80])
+                continue
             bodies = [r["body"] for r in o.get("reqs", [])]
             it = "None" if c["intended"] is None else "(Some (%s, %s, %s))" % tuple(cs(x) for x in c["intended"])
             groups[s].append((i, "(mk_scase %s %s %s %s %s %s)" % (cs(c["domain"]), cs(c["line"]), oc, it, C.coq_list([cs(x) for x in bodies]), cs(o.get("wrote", "")))))
@@ -405,6 +409,7 @@ def emit(cases):
 
 
 COQ_CHUNK = 260
+SKIPPED = []
 
 ROW = re.compile(r"\((\d+), \((true|false), (true|false), (\d+)\)\)")
 
@@ -589,6 +594,8 @@ def run(chk):
             else:
                 pending.append((c, sub))
     chk.cov["disagreements_checked"] = nd
+    chk.cov["cases_skipped"] = len(SKIPPED)
+    chk.notes.extend(SKIPPED[:5])
     for c in corpus:
         hit = any(b[0] is c and not b[3] for b in bad)
         if not hit:
